@@ -32,7 +32,15 @@ LEMMAS = {
     "lemma_L_DISC": ("L-DISC", ["C11"]),
     "lemma_L_COUNT": ("L-COUNT", ["C12"]),
     "lemma_mutex_step": ("L-MUTEX", ["C17"]),
+    # glue U2 (proved) ==> U1 (assumed), contracts/glue_u1_u2.rs
+    "lemma_glue_poll": ("GLUE.poll", ["C16", "C04", "C15"]),
+    "lemma_glue_async_blocking_wait": ("GLUE.async_blocking_wait", ["C15", "C16", "C04"]),
+    "lemma_glue_wait_timeout": ("GLUE.wait_timeout", ["C13", "C04"]),
+    "lemma_glue_is_terminated": ("GLUE.is_terminated", ["C13"]),
+    "lemma_glue_timeout_not_early": ("GLUE.timeout-not-early", ["C13"]),
 }
+GLUE_QUOTES = {"u2.kc": ["O-poll.final-only", "O-abw.final-only", "O-wait_timeout.success", "O-not-early", "O-is_terminated"],
+               "prelude_u1.rs": ["pub fn poll(&self)", "pub fn async_blocking_wait(&self)", "pub fn wait_timeout(&self", "pub fn is_terminated(&self"]}
 
 
 def scan_lemmas(rs_text):
@@ -300,8 +308,28 @@ def known_match(f, prop, findings):
     return None
 
 
+def verify_static(here, unit, tmp):
+    """a hand-written lemma file (no woven code): verify it as it is"""
+    src = os.path.join(here, "contracts", P.UNITS[unit]["static"])
+    for f, quotes in GLUE_QUOTES.items():
+        txt = open(os.path.join(here, "contracts", f)).read()
+        for q in quotes:
+            if q not in txt:
+                raise Undecided("glue file is out of date: `%s` no longer occurs in contracts/%s" % (q, f))
+    rs = os.path.join(tmp, unit + ".rs")
+    shutil.copy(src, rs)
+    res = run_verus(rs, None, None, 4)
+    rs_text = open(rs).read()
+    wmap = {"obligations": [], "functions": [], "line_src": [], "rewrites": [], "uncontracted": [], "audit_failures": [], "_repo": "/repo"}
+    failures = classify(res, wmap, rs_text, unit)
+    return {"unit": unit, "map": wmap, "res": res, "vres": None, "failures": failures, "vac_total": 0, "vac_unreached": [],
+            "weave_log": "static", "stability": None, "rs": rs, "rs_text": rs_text}
+
+
 def verify_unit(here, repo, unit, tmp, seed, tier):
     """weave + verus (normal and vacuity) for one unit; returns dict"""
+    if "static" in P.UNITS[unit]:
+        return verify_static(here, unit, tmp)
     rs = os.path.join(tmp, unit + ".rs")
     mp = os.path.join(tmp, unit + ".map.json")
     vrs = os.path.join(tmp, unit + "_vac.rs")
